@@ -165,6 +165,7 @@ func init() {
 		kinds := []kindOp{
 			{"createText()", opCreateText(txt, "", "")},
 			{"createJSON(A)", opCreateJSON("A", m1)},
+			{"createJSON2(A)", opCreateJSON("A", m2)},
 			{"createJSONinvalid(A)", opCreateJSON("A", bad)},
 			{"get(A)", opSimple("get", "A")},
 			{"list()", opSimple("list", "")},
@@ -190,9 +191,20 @@ func init() {
 			}
 		}
 		// three requests: the state-changing kinds and one observer
-		tri := []int{1, 3, 4, 7, 9}
+		kindIdx := func(names ...string) []int {
+			var out []int
+			for _, n := range names {
+				for i, k := range kinds {
+					if k.name == n {
+						out = append(out, i)
+					}
+				}
+			}
+			return out
+		}
+		tri := kindIdx("createJSON(A)", "createJSON2(A)", "get(A)", "list()", "add(A)", "delete(A)")
 		if thorough {
-			tri = []int{0, 1, 3, 4, 6, 7, 8, 9}
+			tri = kindIdx("createText()", "createJSON(A)", "createJSON2(A)", "get(A)", "list()", "validate(A)", "add(A)", "addinvalid(A)", "delete(A)")
 		}
 		for s := range setups {
 			for _, a := range tri {
@@ -266,7 +278,7 @@ func init() {
 			return
 		}
 		// outcome of a script: responses by original request index, then the store
-		outcome := func(si int, c combo, perm []int) string {
+		outcome := func(si int, c combo, perm []int, withBodies bool) string {
 			var rs []httpRes
 			json.Unmarshal(results[si]["results"], &rs)
 			var created []string
@@ -303,7 +315,13 @@ func init() {
 			}
 			var parts []string
 			for i, r := range byReq {
-				parts = append(parts, renderRes(kinds[c.ks[i]].op, r, sym))
+				p := renderRes(kinds[c.ks[i]].op, r, sym)
+				if withBodies && r.Status == 201 { // a create answers with the file it stored: its own content
+					body, _ := hex.DecodeString(r.Body)
+					_, ms := msgOfFileJSON(body)
+					p += ":" + ms
+				}
+				parts = append(parts, p)
 			}
 			return strings.Join(parts, "|") + "||" + renderStore(files, sym)
 		}
@@ -313,7 +331,8 @@ func init() {
 			for i := range ident {
 				ident[i] = i
 			}
-			got := outcome(j.idx, j.c, ident)
+			got := outcome(j.idx, j.c, ident, false)
+			gotFull := outcome(j.idx, j.c, ident, true)
 			var margs []string
 			for _, s := range setups[j.c.setup] {
 				margs = append(margs, s.margs...)
@@ -329,7 +348,7 @@ func init() {
 			explained := false
 			perms := permutations(n)
 			for pi, si := range j.perms {
-				if outcome(si, j.c, perms[pi]) == got {
+				if outcome(si, j.c, perms[pi], true) == gotFull {
 					explained = true
 					break
 				}
@@ -338,7 +357,7 @@ func init() {
 			if explained {
 				o.Case("prop:http-linearizable", "same", sig)
 			} else {
-				o.Case("prop:http-linearizable", "differ:no sequential order of the requests produces this outcome: "+sig+" outcome="+short(got), sig)
+				o.Case("prop:http-linearizable", "differ:no sequential order of the requests produces this outcome: "+sig+" outcome="+short(gotFull), sig)
 			}
 		}
 	}
